@@ -287,7 +287,7 @@ pub fn run(out: &mut Out, tier: &str, seed: u64, corpus: Option<&str>, prop: &st
                     c.w = rng.range(1, 70) as u32; c.h = if c.dim == 0 { 1 } else { rng.range(1, 70) as u32 };
                     if c.cube10 || (!c.dx10 && c.caps2 & 0x200 != 0) { c.h = c.w; }
                     if *format == Format::NV12 && rng.chance(3, 4) { c.w = (c.w + 1) & !1; c.h = (c.h + 1) & !1; }
-                    c.mips = match rng.below(3) { 0 => 1, 1 => rng.range(1, 4) as u32, _ => 32 - (c.w.max(c.h).max(c.depth.unwrap_or(1))).leading_zeros() };
+                    c.mips = match rng.below(4) { 0 => 1, 1 => rng.range(1, 4) as u32, 2 if c.depth.is_none() => 17 + rng.below(9) as u32, _ => 32 - (c.w.max(c.h).max(c.depth.unwrap_or(1))).leading_zeros() };   // 17..25: more levels than the chain needs (all 1x1)
                     if let Some(d) = c.depth.as_mut() { *d = rng.range(1, 5) as u32; }
                 }
                 let n = rng.range(3, 40) as usize;
